@@ -55,10 +55,11 @@ func c25Classify(t c25Case, shErr error, shOut string, bashOK bool, bashGot stri
 		// bash brace-expands textually before parameter expansion, so
 		// $V{a,b} becomes $Va $Vb; sh expands $V and then the braces
 		return "brace-expansion-extends-parameter-name"
-	case bothOK && t.Env != 2 && c25ReplStar.MatchString(s) && bashGot == c25Sh(t, c25ReplStar.ReplaceAllLiteralString(s, "")):
+	case bothOK && t.Env != 2 && c25ReplStar.MatchString(s) && bashGot == c25Sh(t, c25ReplStar.ReplaceAllLiteralString(s, "${V}")):
 		// same family as C21 replace-on-unset-inserts-replacement: ${V/*/r}
 		// of an unset V yields r; for bash the whole expansion is empty
-		// (bash's result is what sh gives for the string without the item)
+		// (bash's result is what sh gives for the string with ${V}, which is
+		// empty here, in the item's place)
 		return "replace-on-unset-inserts-replacement"
 	case bothOK && t.Env == 2 && c25ReplAnchored.MatchString(s) && shOut == c25Sh(t, c25ReplAnchored.ReplaceAllLiteralString(s, "${V}")):
 		// same family as C21 replace-anchor-unsupported: ${V/#p/r} ${V/%p/r}
@@ -69,7 +70,7 @@ func c25Classify(t c25Case, shErr error, shOut string, bashOK bool, bashGot stri
 		// be assigned to, so the expansion fails; bash assigns and yields w
 		return "assign-default-needs-writable-environment"
 	case bothOK && t.Env != 2 && c25DefQuoteVar.MatchString(s) && (t.Fn == "Expand" || strings.Contains(s, `"${V`)) &&
-		bashGot == c25Sh(t, c25DefQuoteVar.ReplaceAllLiteralString(s, "")):
+		bashGot == c25Sh(t, c25DefQuoteVar.ReplaceAllLiteralString(s, "${V}")):
 		// bash 5.2 quirk: inside double quotes (and here-documents) the
 		// default word "$W"z - a quoted expansion directly followed by a
 		// letter - expands to nothing even when W is set ("${V:-"$W"z}" gives
